@@ -85,6 +85,9 @@ func stressWorkerMain(args []string) {
 	c := girc.New(girc.Config{Server: "irc.example.org", Port: 6667, Nick: "me", User: "me", Name: "me", AllowFlood: true,
 		RecoverFunc: func(c *girc.Client, e *girc.HandlerError) {}})
 	var stop int32
+	if mode == "stsack" {
+		stop = 1 // a quiet scenario: only the library's own goroutines
+	}
 	var progress int64
 	var wg sync.WaitGroup
 	go func() { // heartbeat for the parent's watchdog: the scenario is alive as long as this number moves
@@ -144,6 +147,10 @@ func stressWorkerMain(args []string) {
 		for i, l := range lines {
 			if closeMid && i == len(lines)/2 {
 				go c.Close()
+			}
+			if l == "SLEEP" {
+				time.Sleep(100 * time.Millisecond)
+				continue
 			}
 			srv.SetWriteDeadline(time.Now().Add(20 * time.Second))
 			if _, err := srv.Write([]byte(l + "\r\n")); err != nil {
@@ -245,6 +252,44 @@ func stressWorkerMain(args []string) {
 	})
 
 	switch mode {
+	case "connected":
+		// the background 001 handler announces CONNECTED two seconds after the welcome (reading the server
+		// address, which depends on the STS policy) while CAP traffic that updates the policy keeps arriving
+		var lines []string
+		for i := 0; i < 26; i++ {
+			lines = append(lines, "SLEEP", ":srv CAP me LS :sts=duration=1000,port=6697 multi-prefix", fmt.Sprintf(":Bob!u@h PRIVMSG me :\x01FINGER\x01"), ":srv CAP me NEW :sts=duration=2000,port=6698")
+		}
+		runConn(lines, false)
+	case "stsack":
+		// an STS policy is acknowledged on a plaintext connection (handleCAP stores the port and closes to
+		// upgrade) while the background 001 handler is still due to read the server address
+		cli, srv := net.Pipe()
+		done := make(chan error, 1)
+		go func() { done <- c.MockConnect(cli) }()
+		go func() {
+			rd := bufio.NewReader(srv)
+			for {
+				if _, err := rd.ReadString('\n'); err != nil {
+					return
+				}
+			}
+		}()
+		for _, l := range []string{":srv 001 me :Welcome", ":srv CAP me LS :sts=duration=1000,port=6697", "SLEEP", ":srv CAP me ACK :sts"} {
+			if l == "SLEEP" {
+				time.Sleep(2100 * time.Millisecond) // the CONNECTED announcement has just read the policy
+				continue
+			}
+			srv.SetWriteDeadline(time.Now().Add(2 * time.Second))
+			srv.Write([]byte(l + "\r\n"))
+			time.Sleep(20 * time.Millisecond)
+		}
+		select {
+		case <-done:
+		case <-time.After(3 * time.Second):
+		}
+		time.Sleep(100 * time.Millisecond)
+		srv.Close()
+		c.Close()
 	case "reconnect":
 		for k := 0; k < 3; k++ {
 			runConn(stressLines(r, nLines/3), k == 1)
@@ -371,11 +416,11 @@ func runC12(c *Ctx) {
 	n := 0
 	for _, mode := range []string{"stream", "closemid", "reconnect"} {
 		for _, procs := range []string{"1", "2", "16"} {
-			if c.Scale == 1 && mode == "reconnect" && procs == "1" {
-				continue
+			if c.Scale == 1 && (mode == "reconnect" && procs != "16" || mode == "closemid" && procs == "2") {
+				continue // the quick tier runs 6 of the 9 combinations
 			}
 			for k := 0; k < c.Scale; k++ {
-				lines := 250
+				lines := 160
 				if c.Scale > 1 {
 					lines = 600
 				}
@@ -387,5 +432,79 @@ func runC12(c *Ctx) {
 			}
 		}
 	}
+	c.run("stress12", map[string]string{"seed": "1", "procs": "4", "lines": "0", "mode": "connected"})
+	c.run("stress12", map[string]string{"seed": "1", "procs": "4", "lines": "0", "mode": "stsack"})
+	n += 2
+	for _, ev := range []string{"CTCP", girc.STS_ERR_FALLBACK, girc.INITIALIZED, girc.DISCONNECTED} {
+		c.run("callback12", map[string]string{"event": ev})
+		n++
+	}
 	c.R.Traces = n
+}
+
+// ---- handlers calling back into the client from every lifecycle event the library emits ----
+//
+// A handler for any event — including the ones emitted from internalConnect itself — may call the
+// concurrent-safe API; none of those calls may block forever.
+func init() {
+	runners["callback12"] = func(c *Ctx, in map[string]string) {
+		hin := hexIn(in)
+		cfg := girc.Config{Server: "irc.example.org", Port: 6667, Nick: "me", User: "me", TLSConfig: nil}
+		cl := girc.New(cfg)
+		seen := int32(0)
+		cl.Handlers.Add(girc.ALL_EVENTS, func(c *girc.Client, e girc.Event) {
+			if e.Command == in["event"] {
+				atomic.AddInt32(&seen, 1)
+			}
+			_ = c.IsConnected()
+			_ = c.GetNick()
+			_ = c.Server()
+			_ = c.Latency()
+			c.Cmd.Ping("x")
+		})
+		var r1 string
+		if in["event"] == "CTCP" {
+			// a CTCP handler that (re)registers CTCP handlers: the dispatcher must not hold the table's lock while it runs
+			cl.CTCP.Set("CALLBACK", func(c *girc.Client, ev girc.CTCPEvent) {
+				atomic.AddInt32(&seen, 1)
+				c.CTCP.Set("OTHER", func(c *girc.Client, ev girc.CTCPEvent) {})
+				c.CTCP.Clear("OTHER")
+			})
+			d, err := newDispClientFor(cl)
+			if err != nil {
+				c.R.Mismatch("callback12.setup", hin, err.Error(), "")
+				return
+			}
+			d.send(":bob!b@h PRIVMSG me :\x01CALLBACK\x01")
+			ok := d.barrier("afterctcp")
+			go d.close()
+			if !ok {
+				c.R.Violation("callback12.deadlock", hin, "no PONG after a CTCP request whose handler calls CTCP.Set/Clear: the client stopped processing events", "", "handlers may call back into the client; none blocks forever")
+				return
+			}
+			if atomic.LoadInt32(&seen) == 0 {
+				c.R.Mismatch("callback12.not_emitted", hin, "the CTCP handler was not invoked", "")
+			}
+			c.R.Count("callback/CTCP", true, "callback")
+			return
+		}
+		switch in["event"] {
+		case girc.STS_ERR_FALLBACK:
+			// a stored, expired policy and a failing dial: the library falls back and says so
+			girc.VerifSetSTS(cl, 6697, 1, 100*time.Second, -1)
+			d := &scriptDialer{peers: []*peerScript{newPeer("fail")}}
+			r1 = connectWithTimeout(cl, d)
+		default:
+			d := &scriptDialer{peers: []*peerScript{newPeer("sniff")}}
+			r1 = connectWithTimeout(cl, d)
+		}
+		if r1 == "timeout" {
+			c.R.Violation("callback12.deadlock", hin, "Connect did not return: a handler for "+in["event"]+" that calls IsConnected()/GetNick()/Server()/Latency()/Cmd.Ping blocks forever", "", "handlers may call back into the client; none blocks forever")
+			return
+		}
+		if atomic.LoadInt32(&seen) == 0 {
+			c.R.Mismatch("callback12.not_emitted", hin, "the scenario did not emit "+in["event"]+" (result "+r1+")", "")
+		}
+		c.R.Count("callback/"+in["event"], true, "callback")
+	}
 }
